@@ -161,6 +161,43 @@ def gen_cfgs(r, tier):
     return cases, len(grid), len(seqs)
 
 
+def interleaved_iterators(ld, r, cases, count):
+    """several iterators over ONE bucket dataset object, advanced in a random order: each of them emits exactly the batches of a
+    pass on its own (the buckets, the buffer count and the drop statistics belong to the iteration, not to the dataset object)"""
+    fails = []
+    done = 0
+    for cfg, lens in cases:
+        if done >= count:
+            break
+        if len(lens) < 3:
+            continue
+        done += 1
+        bs, rate, mts, exp, maxbuf, drop, sortmode = cfg
+        exs = [{'id': i, 'len': l} for i, l in enumerate(lens)]
+        kw = dict(max_total_size=mts, expiration=exp, max_buffered_examples=maxbuf, drop_incomplete=drop, sort_key=None if sortmode == 0 else 'len', reverse_sort=sortmode == 2)
+        try:
+            ds = ld.new(exs).batch_dynamic_time_series_bucket(batch_size=bs, len_key='len', max_padding_rate=rate, **kw)
+            solo = [[e['id'] for e in b] for b in ds]
+            k = r.choice([2, 2, 3])
+            its = [iter(ds) for _ in range(k)]
+            outs = [[] for _ in range(k)]
+            live = list(range(k))
+            while live:
+                i = r.choice(live)
+                try:
+                    outs[i].append([e['id'] for e in next(its[i])])
+                except StopIteration:
+                    live.remove(i)
+            bad = [i for i in range(k) if outs[i] != solo]
+            if bad:
+                fails.append(dict(kind='input', summary=f'{k} iterators over one bucket dataset (cfg={[str(c) for c in cfg]}, lens={[str(l) for l in lens]}) advanced in a random order: iterator {bad[0]} emitted {outs[bad[0]]}, a pass on its own emits {solo}'[:700],
+                                  config=dict(cfg=[str(c) for c in cfg], lens=[str(l) for l in lens], interleaved=True)))
+        except Exception as e:
+            fails.append(dict(kind='input', summary=f'interleaved iterators over a bucket dataset (cfg={[str(c) for c in cfg]}, lens={[str(l) for l in lens]}) raised {type(e).__name__}: {e}'[:400],
+                              config=dict(cfg=[str(c) for c in cfg], lens=[str(l) for l in lens], interleaved=True)))
+    return fails, done
+
+
 def run(tier):
     ld = common.import_impl()
     r = common.rng_for('C17')
@@ -205,6 +242,8 @@ def run(tier):
                 failures.append(dict(kind='input', summary=f'lengths given as {ty.__name__}: cfg={[str(c) for c in cfg]} lens={[str(l) for l in lens]} gives {out!r}; '
                                      f'the same numbers as exact rationals give {outs[i]!r}'[:600],
                                      config=dict(cfg=[str(c) for c in cfg], lens=[str(l) for l in lens], numeric_type=ty.__name__), got_from_impl=repr(out)[:600]))
+    il_fails, nil = interleaved_iterators(ld, common.rng_for('C17-inter'), cases, 400 if tier == 'quick' else 6000)
+    failures += il_fails
     bad = eval_cases(coq, f'C17_{tier}')
     seen = set(id(f) for f in failures)
     for i, dump in bad:
@@ -217,7 +256,7 @@ def run(tier):
                rule=f'(parameters, length sequence): sequences over the alphabet {{1,2,3,5}} up to length {4 if tier == "quick" else 6} '
                     f'({nseq} sequences) x a grid of {ngrid} parameter settings, sampled; plus random rational sequences of length 5..40; '
                     'non-trivial = distinct case with >= 2 examples',
-               traces_validated_against_impl=len(cases), disagreements_checked=len(bad), float_runs_checked_against_predicates=nfloat, integer_typed_runs_compared_with_exact_run=ntyped,
+               traces_validated_against_impl=len(cases), disagreements_checked=len(bad), float_runs_checked_against_predicates=nfloat, interleaved_iterator_runs=nil, integer_typed_runs_compared_with_exact_run=ntyped,
                outcome_histogram=dict(collections.Counter('raised' if isinstance(o, tuple) else f'{len(o)} batches' for o in outs).most_common(12)),
                length_histogram=dict(sorted(collections.Counter(len(l) for c, l in cases).items())),
                samples=[dict(cfg=[str(c) for c in cases[i][0]], lens=[str(l) for l in cases[i][1]], emitted=outs[i]) for i in (0, 5, len(cases) - 1)],
@@ -233,6 +272,10 @@ def replay(payload):
     cfg = (int(raw[0]), Fraction(raw[1]), None if raw[2] == 'None' else Fraction(raw[2]),
            None if raw[3] == 'None' else int(raw[3]), None if raw[4] == 'None' else int(raw[4]), raw[5] == 'True', int(raw[6]))
     lens = [Fraction(x) for x in c['lens']]
+    if c.get('interleaved'):
+        ff, _ = interleaved_iterators(ld, common.rng_for('C17-inter-replay'), [(cfg, lens)] * 30, 30)
+        print('  interleaved iterators:', [f['summary'][:200] for f in ff[:2]])
+        return bool(ff)
     out = run_impl(ld, cfg, lens)
     fails = predicates(cfg, lens, out)
     bad = eval_cases([coq_case(cfg, lens, out)], 'replay17')
